@@ -27,12 +27,14 @@ SetHeader(h) == Room /\ "set_header" \in Calls /\ hdr' = HOf(h) /\ Op([op |-> "s
 Simple(c, a) == Room /\ c \in Calls /\ Op([op |-> c, arg |-> a]) /\ UNCHANGED <<doc, hdr, tablesLoaded, mergedLoaded, done>>
 LoadTables == Room /\ "load_tables" \in Calls /\ tablesLoaded' = TRUE /\ Op([op |-> "load_tables", arg |-> ""])
               /\ UNCHANGED <<doc, hdr, mergedLoaded, done>>
-TableCalls(c) == Room /\ c \in Calls /\ tablesLoaded /\ Op([op |-> c, arg |-> "T1"])
-                 /\ UNCHANGED <<doc, hdr, tablesLoaded, mergedLoaded, done>>
+\* table calls need the tables loaded (documented precondition): when they are not, the
+\* history step stands for load_tables followed by the call
+TableCalls(c) == Room /\ c \in Calls /\ Op([op |-> c, arg |-> "T1"]) /\ tablesLoaded' = TRUE
+                 /\ UNCHANGED <<doc, hdr, mergedLoaded, done>>
 LoadMerged == Room /\ "load_merged" \in Calls /\ mergedLoaded' = TRUE /\ Op([op |-> "load_merged", arg |-> ""])
               /\ UNCHANGED <<doc, hdr, tablesLoaded, done>>
-MergedCalls == Room /\ "merged_by_sheet" \in Calls /\ mergedLoaded /\ Op([op |-> "merged_by_sheet", arg |-> "S1"])
-               /\ UNCHANGED <<doc, hdr, tablesLoaded, mergedLoaded, done>>
+MergedCalls == Room /\ "merged_by_sheet" \in Calls /\ Op([op |-> "merged_by_sheet", arg |-> "S1"]) /\ mergedLoaded' = TRUE
+               /\ UNCHANGED <<doc, hdr, tablesLoaded, done>>
 End == ~done /\ hist # <<>> /\ done' = TRUE /\ UNCHANGED <<doc, hdr, tablesLoaded, mergedLoaded, hist>>
 
 Next == \/ \E h \in HSet : SetHeader(h)
